@@ -381,13 +381,24 @@ type c13Pipe struct {
 
 func c13Funcs() vuego.FuncMap {
 	return vuego.FuncMap{
-		"double":  func(i int) int { return i * 2 },
-		"add":     func(a, b int) int { return a + b },
-		"repeat":  func(s string, n int) string { return strings.Repeat(s, n) },
-		"money":   func(f float64) string { return fmt.Sprintf("$%.2f", f) },
-		"yesno":   func(b bool) string { if b { return "yes" }; return "no" },
-		"ident":   func(v any) any { return v },
-		"sum":     func(xs ...int) int { t := 0; for _, x := range xs { t += x }; return t },
+		"double": func(i int) int { return i * 2 },
+		"add":    func(a, b int) int { return a + b },
+		"repeat": func(s string, n int) string { return strings.Repeat(s, n) },
+		"money":  func(f float64) string { return fmt.Sprintf("$%.2f", f) },
+		"yesno": func(b bool) string {
+			if b {
+				return "yes"
+			}
+			return "no"
+		},
+		"ident": func(v any) any { return v },
+		"sum": func(xs ...int) int {
+			t := 0
+			for _, x := range xs {
+				t += x
+			}
+			return t
+		},
 		"joinall": func(sep string, parts ...string) string { return strings.Join(parts, sep) },
 		"fail":    func(s string) (string, error) { return "", fmt.Errorf("boom-%s", s) },
 		"strict":  func(s string) string { return "<" + s + ">" },
